@@ -138,6 +138,10 @@ def cmp_case(draw):
 # oracle: exact interpreter with error bounds
 
 
+def is_num(x):
+    return isinstance(x, (int, float)) and not isinstance(x, bool)
+
+
 class Q:
     __slots__ = ("vals", "errs", "dim", "arr", "sys")
 
@@ -201,7 +205,7 @@ def _same_sys(a, b):
 def ev(n, info):
     k = n["k"]
     if k == "num":
-        return F(n["v"])
+        return n["v"]            # a plain Python number: int or float, combined by Python itself
     if k == "uv":
         s = si.scale(n["sys"], n["dim"])
         q = Q([F(n["v"]) * s], [F(0)], dict(n["dim"]), False, dict(n["sys"]))
@@ -214,13 +218,13 @@ def ev(n, info):
         return q
     if k in ("neg", "abs"):
         a = ev(n["a"], info)
-        if isinstance(a, F):
+        if is_num(a):
             return -a if k == "neg" else abs(a)
         return Q([(-v if k == "neg" else abs(v)) for v in a.vals], list(a.errs), a.dim, a.arr, a.sys)
     if k == "pow":
         a = ev(n["a"], info)
         num, den = n["e"]
-        if isinstance(a, F) or a.arr:
+        if is_num(a) or a.arr:
             raise Skip("pow on non-scalar-quantity")
         dim = {}
         for kk in KINDS:
@@ -246,23 +250,29 @@ def ev(n, info):
     op = n["op"]
     a = ev(n["a"], info)
     b = ev(n["b"], info)
-    if isinstance(a, F) and isinstance(b, F):
-        if op == "+":
-            return a + b
-        if op == "-":
-            return a - b
-        if op == "*":
-            return a * b
-        if b == 0:
+    if is_num(a) and is_num(b):
+        # number (op) number never reaches strengths: it is ordinary Python arithmetic, rounding included
+        try:
+            if op == "+":
+                r = a + b
+            elif op == "-":
+                r = a - b
+            elif op == "*":
+                r = a * b
+            elif op == "/":
+                r = a / b
+            else:
+                r = a % b
+        except ZeroDivisionError:
             raise Skip("zero divisor")
-        if op == "/":
-            return a / b
-        return a - b * math.floor(a / b)
+        if isinstance(r, float) and (r != r or r in (float("inf"), float("-inf"))):
+            raise Skip("number overflow")
+        return r
     if op in "+-%":
-        if isinstance(a, F):
-            a = _num_as_q(a, b)
-        elif isinstance(b, F):
-            b = _num_as_q(b, a)
+        if is_num(a):
+            a = _num_as_q(F(a), b)
+        elif is_num(b):
+            b = _num_as_q(F(b), a)
         else:
             if a.dim != b.dim:
                 raise Err("dimension mismatch in " + op)
@@ -292,11 +302,11 @@ def ev(n, info):
         _range_check(q)
         return q
     # * and /
-    if isinstance(a, F):
-        a = Q([a], [F(0)], {kk: 0 for kk in KINDS}, False, b.sys)
+    if is_num(a):
+        a = Q([F(a)], [F(0)], {kk: 0 for kk in KINDS}, False, b.sys)
         sys_ = b.sys
-    elif isinstance(b, F):
-        b = Q([b], [F(0)], {kk: 0 for kk in KINDS}, False, a.sys)
+    elif is_num(b):
+        b = Q([F(b)], [F(0)], {kk: 0 for kk in KINDS}, False, a.sys)
         sys_ = a.sys
     else:
         _mark_mixed(a, b, info)
@@ -412,7 +422,7 @@ def check_expr(ctx, c):
     if raised is not None:
         raise Violation("%s raised %s: %s" % (render(t), type(raised).__name__, str(raised)[:200]),
                         key="expr:raised")
-    if isinstance(want, F):
+    if is_num(want):
         return
     if want.arr != isinstance(got, S.UnitArray) or (not want.arr and not isinstance(got, S.UnitValue)):
         raise Violation("%s returned a %s" % (render(t), type(got).__name__), key="expr:type")
@@ -436,16 +446,13 @@ def check_cmp(ctx, c):
     try:
         a = ev(c["a"], info)
         b = ev(c["b"], info)
-        if isinstance(a, F) and isinstance(b, F):
+        if is_num(a) and is_num(b):
             raise Skip("number vs number")
-        if isinstance(a, F) or isinstance(b, F):
-            if op in ("==", "!="):
-                # documented: value compared with the number as is
-                pass
-            if isinstance(a, F):
-                a = _num_as_q(a, b)
+        if is_num(a) or is_num(b):
+            if is_num(a):
+                a = _num_as_q(F(a), b)
             else:
-                b = _num_as_q(b, a)
+                b = _num_as_q(F(b), a)
         elif a.dim != b.dim:
             if op == "==":
                 outcome = False
